@@ -235,7 +235,7 @@ class Exec(ExprMixin, StmtMixin, CallMixin):
             finally: self.qvars.pop()
             def lam(t):      # Lambda j. a[j]  is the array a itself (keeps terms small and syntactically equal)
                 if z3.is_select(t) and t.arg(1).eq(j) and not contains(t.arg(0), j): return t.arg(0)
-                return self.lemmas.named_array(j, t, [v for v in self.qvars if not v.eq(j) and contains(t, v)])
+                return self.lemmas.named_array(j, t, [v for v in self.qvars if not v.eq(j) and contains(t, v)], count=(n == 'Count'))
             if n == 'Count': return VInt(self.lemmas.SumA(lam(z3.If(self.truthy(b), z3.IntVal(1), z3.IntVal(0))), hi))
             if n == 'SumR': return VReal(self.lemmas.SumR(lam(self.toreal(b)), hi))
             t, r = self.num(b, 'sum', p, 0)
